@@ -42,7 +42,10 @@ GraphWFClause(g) ==
 GraphType(g) == [i \in DOMAIN g.ext |-> g.ext[i].l]
 RuleTyped(r) == r.lhs.type = GraphType(r.rhs) /\ ~r.lhs.t
 HrgLabels(h) == h.els \cup { h.rules[i].lhs : i \in DOMAIN h.rules }
-                      \cup UNION { LabelsOf(h.rules[i].rhs) : i \in DOMAIN h.rules }
+                      \* (the labels ON the edges of the right-hand sides; a right-hand side's private label table may still
+                      \*  remember an edge that was removed before the graph became a rule -- that is the graph's own
+                      \*  namespace, judged by GraphWFClause, not a label of the grammar)
+                      \cup UNION { { e.lab : e \in h.rules[i].rhs.edges } : i \in DOMAIN h.rules }
                       \cup (IF h.start = NoLabel THEN {} ELSE {h.start})
 HRGWFClause(h) ==
   LET bad == { i \in DOMAIN h.rules : GraphWFClause(h.rules[i].rhs) # "ok" } IN
